@@ -226,6 +226,11 @@ def repo_fingerprint():
 
 def build_harness(release=False, hook=False, features=None, timeout=1500):
     """cargo build --offline against /repo's working tree. Returns (binary_path|None, log)."""
+    # the generated sources (harness/src/gen, src/gen_abi) are not committed: on a fresh checkout write the default
+    # universe (seed 1, quick) before the first build
+    if not (os.path.exists(os.path.join(HARNESS, "src", "gen", "mod.rs")) and os.path.exists(os.path.join(HARNESS, "src", "gen_abi", "mod.rs"))):
+        from . import gencrate
+        gencrate.write_sources(1, "quick")
     with Lock("cargo"):
         lock = os.path.join(HARNESS, "Cargo.lock")
         if not os.path.exists(lock):
